@@ -15,7 +15,7 @@ ID = 'C06'
 def plan(tier):
     if tier == 'quick':
         return [(1, ('plain',), 'RBWN', 2, False), (2, ('plain', 'rainbow'), 'RBWN', 2, False),
-                (3, ('plain',), 'RBW', 2, False), (3, ('rainbow',), 'RWN', 1, True), (3, ('parsed',), 'RW', 1, False), (3, ('plain',), 'eB', 2, False), (3, ('plain',), 'gmB', 2, False), (3, ('long',), 'RB', 2, False)]
+                (3, ('plain',), 'RBW', 2, False), (3, ('rainbow',), 'RWN', 1, True), (3, ('parsed',), 'RW', 1, False), (3, ('plain',), 'eB', 2, False), (3, ('plain',), 'gmB', 2, False), (3, ('long',), 'RB', 2, False), (2, ('plain',), 'WN', 3, False), (2, ('plain',), 'RB', 3, False)]
     return [(1, ('plain',), 'RBWNX', 3, False), (2, ('plain', 'rainbow'), 'RBWN', 3, False),
             (3, ('plain', 'rainbow'), 'RBWN', 2, True), (3, ('plain',), 'RBW', 3, False), (4, ('plain', 'rainbow'), 'RBW', 2, False), (3, ('plain',), 'egmB', 2, False), (3, ('plain',), 'eB', 3, False), (3, ('long',), 'RBW', 2, False)]
 
@@ -39,7 +39,7 @@ def uid_cells(v):
 def check_apply(h, pre, S, i, j, top, acc=None):
     """pre = (text, uid-cells, canon_hash) of the state built by h.  Performs the transition on a fresh
     value; returns (list of (clause, detail), post value)."""
-    text, ucells, ch0 = pre
+    text, ucells, ch0 = pre[:3]
     L = len(text)
     cells = [model.codes_of(c) for c in ucells]
     bad = []
@@ -61,8 +61,8 @@ def check_apply(h, pre, S, i, j, top, acc=None):
         bad.append(('apply-text', '%s changed the text to %r' % (what, t2)))
         return bad, v
     if e <= s or not S:
-        if model.canon_hash(v) != ch0:
-            bad.append(('apply-noop', '%s is not a no-op: cells %s -> %s' % (what, cells, c2)))
+        if not model.unchanged(v, pre[3]):
+            bad.append(('apply-noop', '%s is not a no-op: cells %s -> %s (or == / rendering changed)' % (what, cells, c2)))
         return bad, v
     for k in range(L):
         old, new = cells[k], c2[k]
@@ -128,7 +128,7 @@ def model_settings(S):
 def check_state(h, v, acc, tier, only=None):
     text, ucells = model.alpha(v)
     L = len(text)
-    pre = (text, ucells, model.canon_hash(v))
+    pre = (text, ucells, model.canon_hash(v), model.freeze_value(v))
     menu = settings_menu(acc.seed, tier)
     bounds = explore.probe_bounds(L, 2, 3)
     out = []
@@ -210,7 +210,7 @@ def replay(case):
     op = case['op']
     v = build(h)
     text, ucells = model.alpha(v)
-    pre = (text, ucells, model.canon_hash(v))
+    pre = (text, ucells, model.canon_hash(v), model.freeze_value(v))
     if op[0] != 'apply':
         return []
     bad, _ = check_apply(h, pre, op[1], op[2], op[3], op[4])
